@@ -120,7 +120,9 @@ WRAPS = [
 
 def lambda_signatures(ctx: lib.Ctx) -> None:
     from pytezos.michelson.repl import Interpreter
+    import c01_gen
 
+    box = c01_gen._hook_failwith()
     reported = 0
     for a, b, body in LAMBDA_SIGS:
         sig = f'{a} {b}'
@@ -128,6 +130,7 @@ def lambda_signatures(ctx: lib.Ctx) -> None:
             base = f'LAMBDA {a} {b} {body}{wrap(sig)}'
             for op in ('DUP', 'FAILWITH', 'PACK'):
                 prog = f'{base} ; {op}'
+                del box[:]
                 r = Interpreter().execute(prog)
                 why = None
                 if op == 'DUP':
@@ -138,7 +141,7 @@ def lambda_signatures(ctx: lib.Ctx) -> None:
                         why = f'PACK of a {wname} holding a lambda must succeed (lambdas are packable whatever their signature): {r.error!r}'
                 else:
                     args = getattr(r.error, 'args', ()) if r.error is not None else ()
-                    if not (len(args) >= 2 and args[-2] == 'FAILWITH'):
+                    if not (len(args) >= 2 and args[-2] == 'FAILWITH' and box and box[-1] is not None and args[-1] == repr(box[-1])):
                         why = f'FAILWITH on a {wname} holding a lambda must fail WITH THAT VALUE, got {r.error!r}'
                 ctx.case((prog,), nontrivial=True, kind=None)
                 ctx.dist['stream:lambda-signature-oracle'] += 1
